@@ -24,6 +24,11 @@ class VariableBoundModel(object):
             return True
         elif len(self.domain.range_l) == 1 and (self.domain.range_l[0][1]-self.domain.range_l[0][0]) == 0:
             return True
+        elif any(r[1] < r[0] for r in self.domain.range_l):
+            # Bounds are propagated on unbounded integers. An inverted range
+            # (eg from a limiting expression that wraps at its bit width) 
+            # carries no usable information
+            return True
         else:
             return False
             
